@@ -43,3 +43,20 @@ let () =
   register "bt.reuse" (function [_; h] -> all (bytes_of_hex h) | _ -> "BADCASE");
   (* model only: the optimised parser with the I64 exclusion added at the three id-class tests *)
   register "bt.fixed" (function [h] -> show_res (BinTape.parse true true (bytes_of_hex h)) | _ -> "BADCASE")
+
+(* >>> a_c06 (C06): the Coq checker alone on an arbitrary token shape: `A:<e>` `O:<e>` `E:<i>`, anything else a scalar *)
+let tok_of_shape (s : string) : BinTape.tok =
+  let num x = nat_of_int (int_of_string x) in
+  match Stdlib.String.split_on_char ':' s with
+  | ["A"; e] -> BinTape.TArray (num e)
+  | ["O"; e] -> BinTape.TObject (num e)
+  | ["E"; i] -> BinTape.TEnd (num i)
+  | ["M"] -> BinTape.TMixed
+  | ["EQ"] -> BinTape.TEqual
+  | _ -> BinTape.TBool true
+
+let () =
+  register "bt.wfcheck" (function [s] ->
+      let t = if s = "-" || s = "" then [] else Stdlib.List.map tok_of_shape (Stdlib.String.split_on_char ' ' s) in
+      if BinTapeWf.tape_wfb t then "y" else "n" | _ -> "BADCASE")
+(* <<< a_c06 *)
